@@ -182,7 +182,7 @@ def write_svg(matrix, matrix_size, out, colormap, scale=1, border=None, xmldecl=
         encoding = 'utf-8'
     allow_css3_colors = svgversion is not None and svgversion >= 2.0
     is_multicolor = len(set(colormap.values())) > 2 or not _is_two_tone(colormap)
-    need_background = not is_multicolor and colormap[consts.TYPE_QUIET_ZONE] is not None and not draw_transparent
+    need_background = not is_multicolor and colormap[consts.TYPE_QUIET_ZONE] is not None
     need_svg_group = scale != 1 and (need_background or is_multicolor)
     # Size of the background in modules (the path is scaled by the scale factor)
     bg_width, bg_height = get_symbol_size(matrix_size, scale=1, border=border)
